@@ -23,6 +23,11 @@ pub fn resolve_addr(
         &mut expr::EvalContext::new(),
         &ast_addr.expr)?;
 
+    asm::resolver::check_failed_constraint(
+        report,
+        ctx,
+        &value)?;
+
     let value = value.expect_error_or_bigint(
         report,
         ast_addr.expr.span())?;
